@@ -37,15 +37,17 @@ ASSUMPTIONS = [
 TRUSTED = ["harness/tables/sm.py (live SMConst / METRONOME / MAX_SNAP / MAX_KEYS / chart-type tables)"]
 MANIFEST = dict(
     text="Machine-checked theorems (Coq 8.16.1) about an executable Gallina model of SMMapSet.write (beats through the C10 timing-map "
-         "model, per-measure LCM with the 384 cap, num*den_max/den truncation, padding, header formatter): the capped LCM fold returns "
-         "the true LCM whenever it stays below the cap and then every object's row index is integral and denotes its beat; with the cap "
-         "the row is at most 1/96 beat early; the pinned header formatter and padding are refuted by witnesses and proved under the "
-         "guards (selectable=true / 4-key or no empty measure) and for the repaired variants; whole-file denotation of the written text "
-         "is established per run by in-Coq evaluation of the reference interpreter sm_denote on the implementation's text "
-         "(sm_write_denotes is _partial).",
+         "model, per-measure LCM with the 384 cap, num*den_max/den truncation, padding, header formatter): the capped LCM fold is the "
+         "true LCM whenever it stays below the cap and then every object's row index is integral and denotes its beat; with the cap the "
+         "row is less than one row (1/96 beat) early; a written measure holds each placed note's symbol in its (row, column) cell and '0' "
+         "elsewhere when no two notes share a cell; padding rows are keys wide for every key count; #TAG:value items and #SELECTABLE are "
+         "read back as written; the OLD header/padding behaviours are refuted by real witnesses. Whole-file denotation of the written "
+         "text (cells -> sm_denote over the joined text; per-object beats, pending the tm_beats half of C10) is not proved for all mapsets "
+         "(sm_write_denotes is _partial); it is established per run by in-Coq evaluation of the reference interpreter sm_denote on the "
+         "implementation's text.",
     note="Trusted: Coq kernel+VM, generator/serialiser, table translator, repr(float) as a value oracle; binary64 rounding measured not proved. "
          "Former findings sm-selectable-no (16f3fe3), sm-pad-width (d872b70), rate-offset-unscaled (0398fe5) are fixed; the old "
-         "behaviours survive only as named OLD variants for the _refuted witnesses.",
+         "behaviours survive only as named OLD variants for the _refuted witnesses; the runner accepts the current behaviour only.",
     technique="Coq proof over executable model + vm_compute correspondence against the implementation + reference interpreter",
     design="4/C03")
 
